@@ -62,6 +62,23 @@ structure Sub.Conservative (sub : Sub) : Prop where
   sct : ∀ v n, sub.sct false v = (n, true) → sub.sct true v = (n, true)
   qc : ∀ v, sub.qcParse false v = some () → sub.qcParse true v = some ()
 
+theorem parseSCTList_perm (deser : Nat → Bytes → Bool) (v : Bytes) (n : Nat) (h : parseSCTList deser false v = (n, true)) :
+    parseSCTList deser true v = (n, true) := by
+  unfold parseSCTList at h ⊢
+  cases hu : un false .octets {} v with
+  | ok w => rw [un_perm _ _ _ _ hu]; simpa [hu] using h
+  | err => simp [hu] at h
+  | panic => simp [hu] at h
+
+/-- sub-parsers with the SCT list modelled: its component of `Sub.Conservative` is a theorem -/
+def subWithSCT (deser : Nat → Bytes → Bool) (tor : Bool → Bytes → Option Nat) (qc : Bool → Bytes → Option Unit) : Sub :=
+  { tor := tor, sct := parseSCTList deser, qcParse := qc }
+
+theorem subWithSCT_conservative (deser : Nat → Bytes → Bool) (tor : Bool → Bytes → Option Nat) (qc : Bool → Bytes → Option Unit)
+    (ht : ∀ v n, tor false v = some n → tor true v = some n) (hq : ∀ v, qc false v = some () → qc true v = some ()) :
+    (subWithSCT deser tor qc).Conservative :=
+  ⟨ht, fun v n h => parseSCTList_perm deser v n h, hq⟩
+
 theorem optRes_ok {α : Type} {o : Option α} {x : α} (h : optRes o = .ok x) : o = some x := by
   cases o with
   | none => simp [optRes] at h
